@@ -15,6 +15,7 @@ PLAN = dict(
                 "shared by reader and writer is still visible."),
     level_note=NOTE_BASE,
     runs=[
+        dict(name="conc", run="^(TestConcRoundTrip)$", checks=(15, 1000), shards=(2, 8), timeout=(400, 3600), race=True),
         dict(name="limits", run="^(TestLimits|TestCorpus)$", timeout=(300, 3600)),
         dict(name="rt", run="^TestPropRoundTrip$", checks=(1200, 150000), shards=(1, 16), timeout=(300, 3600)),
     ],
